@@ -112,6 +112,53 @@ func c13EnclosingFuncs(f *ast.File) map[ast.Node]string {
 }
 
 func genC13Writers() {
+	// session 5: the six recognition predicates of syncer/bisync.go and the five Is…Key predicates are REGENERATED
+	// (gofn_c13.go -> Gen/FnBisyncPreds.lean, Gen/FnBisyncKeyPreds.lean, Props/C13Gen.lean gen_*_eq_model); of the
+	// printed bodies C13 used to expect (facts bisync_syncer_predicates / bisync_key_predicates, still emitted by
+	// c18.go) only the one function that is not translated stays a fact of C13
+	{
+		sfset, sf := parseFile("syncer/bisync.go")
+		facts["c13_slotmode_body"] = c18BodyFact(sfset, sf, "bisyncSlotMode")
+	}
+	// session 5 (D40): which key a snapshot unit is written under and what the snapshot loop withholds
+	// (Props/C13Snap.lean rdbTargetKey / rdbTargetReserved / rdbKept transcribe exactly this)
+	{
+		rfset, rf := parseFile("syncer/bisync_rdb.go")
+		conds := []string{}
+		if fd := c10FindFunc(rf, "rdbReplayBisync"); fd != nil && fd.Body != nil {
+			ast.Inspect(fd.Body, func(n ast.Node) bool {
+				if is, ok := n.(*ast.IfStmt); ok {
+					c := c10Render(rfset, is.Cond)
+					if strings.Contains(c, "isBisyncNamespaceKey") {
+						conds = append(conds, c)
+					}
+				}
+				return true
+			})
+		}
+		// the plain loop (D41, /repo e867911): the same question is asked of the target key
+		pconds := []string{}
+		{
+			ofset, of := parseFile("syncer/output.go")
+			if fd := c10FindFunc(of, "rdbReplay"); fd != nil && fd.Body != nil {
+				ast.Inspect(fd.Body, func(n ast.Node) bool {
+					if is, ok := n.(*ast.IfStmt); ok {
+						c := c10Render(ofset, is.Cond)
+						if strings.Contains(c, "bisyncNsFilter") {
+							pconds = append(pconds, c)
+						}
+					}
+					return true
+				})
+			}
+		}
+		facts["c13_rdb_filter_plain"] = pconds
+		facts["c13_rdb_filter"] = map[string]interface{}{
+			"bisyncRdbTargetKey":      c18BodyFact(rfset, rf, "bisyncRdbTargetKey"),
+			"bisyncRdbTargetReserved": c18BodyFact(rfset, rf, "bisyncRdbTargetReserved"),
+			"rdbReplayBisync_if":      conds,
+		}
+	}
 	// ---- per-procedure write calls
 	procs := []struct{ file, fn string }{
 		{"syncer/syncer.go", "resolveBisyncCheckpointNameWithClient"},
